@@ -271,6 +271,20 @@ def _run_structural(ctx):
         for kw in fld[2].keywords:
             if kw.arg == "factory" and idx.canon(kw.value, info["cls"].module) == "itertools.count":
                 gen_ok = True
+    if not gen_ok and info["tidgen"]:
+        # declared another way (a `@field.default` method, attrs.Factory): what a fresh Scheduler holds in that field decides
+        import itertools as _it
+        from .evalhelpers import make_instance
+        try:
+            inst = make_instance(ctx, info["cls"], "scheduler", working_dir="/wd", max_cores=2)
+            g_ = inst.__dict__["_attrs"].get(info["tidgen"])
+            inst2 = make_instance(ctx, info["cls"], "scheduler", working_dir="/wd", max_cores=2)
+            g2_ = inst2.__dict__["_attrs"].get(info["tidgen"])
+            if isinstance(g_, _it.count) and isinstance(g2_, _it.count) and g_ is not g2_:
+                a_, b_ = next(g_), next(g_)
+                gen_ok = b_ == a_ + 1
+        except Exception:
+            pass
     r3.check(gen_ok, f"{info['cls'].module.relpath}::Scheduler.{info['tidgen']}", "itertools.count (monotone, never repeats within a pool)",
              "the id generator is not itertools.count: ids could repeat within one pool", info["cls"].where)
     reassigned = []
